@@ -577,6 +577,7 @@ pub fn run_world<W: World>(
     let stop = AtomicBool::new(false);
     // Sensitivity sweeps over hundreds of mutants only need "is it caught": stop at the first violation.
     let fast_fail = std::env::var("AXSIM_FAST_FAIL").is_ok();
+    let show_truncated = std::env::var("AXSIM_SHOW_TRUNCATED").is_ok();
     let start = Instant::now();
     let seed = agg.seed;
     let results: Mutex<Vec<RunSummary<W>>> = Mutex::new(Vec::new());
@@ -631,7 +632,7 @@ pub fn run_world<W: World>(
                         ltrans.insert(s);
                     }
                     let interesting =
-                        out.violation.is_some() || out.harness_error.is_some() || idx < 3;
+                        out.violation.is_some() || out.harness_error.is_some() || idx < 3 || (show_truncated && out.truncated_by.is_some());
                     if fast_fail && out.violation.is_some() {
                         stop.store(true, Ordering::Relaxed);
                     }
@@ -681,6 +682,42 @@ pub fn run_world<W: World>(
         }
         if let Some(t) = &r.out.truncated_by {
             *agg.truncated.entry(t.clone()).or_insert(0) += 1;
+            // AXSIM_SHOW_TRUNCATED=1: name the runs, so that a sibling's failed expectation seen
+            // in a long batch can be re-run under that sibling's own focus
+            if show_truncated {
+                eprintln!("truncated: world {} run {} seed {} by {}", W::NAME, r.idx, r.run_seed, t);
+                let sib = t.split(':').next().and_then(|p| ALL_PROPS.iter().find(|q| **q == p).copied());
+                if let (Some(sib), Some((cfg, ops))) = (sib, r.keep.as_ref()) {
+                    let again = exec_once::<W>(cfg, ops, sib, known, false);
+                    if let Some(v) = &again.violation {
+                        let (min_ops, used) = minimise::<W>(cfg, ops.clone(), sib, known, v);
+                        let fin = exec_once::<W>(cfg, &min_ops, sib, known, true);
+                        if let Some(fv) = fin.violation.clone() {
+                            let rf = ReplayFile {
+                                property: sib.to_string(),
+                                world: W::NAME.to_string(),
+                                seed,
+                                run_index: r.idx,
+                                run_seed: r.run_seed,
+                                cfg: serde_json::to_value(cfg).unwrap(),
+                                ops: serde_json::to_value(&min_ops).unwrap(),
+                                expect: fv.clone(),
+                                trace: fin.trace.iter().map(|t| format!("{:016x}", t)).collect(),
+                                original_ops: ops.len(),
+                                minimisation_reexecutions: used,
+                                log: fin.log.clone(),
+                            };
+                            let dir = std::env::var("AXSIM_REPLAY_DIR").unwrap_or_else(|_| format!("{}/replays", VERIF_DIR));
+                            let _ = std::fs::create_dir_all(&dir);
+                            let path = format!("{}/sibling-{}-{}-{}.json", dir, sib, W::NAME, r.run_seed);
+                            std::fs::write(&path, serde_json::to_string_pretty(&rf).unwrap()).unwrap();
+                            eprintln!("  under focus {}: class={} steps {}->{} replay={} detail: {}", sib, fv.class, ops.len(), min_ops.len(), path, fv.detail);
+                        }
+                    } else {
+                        eprintln!("  under focus {} the run shows no violation", sib);
+                    }
+                }
+            }
         }
         if let Some(h) = &r.out.harness_error {
             if agg.harness_errors.len() < 5 {
